@@ -15,9 +15,26 @@
 (* and by the mechanism layer: pratt - Grammar!Pratt on the tokens returns  *)
 (* the same tree (drift when not).                                          *)
 (***************************************************************************)
-EXTENDS Grammar, Json, TLCExt
+EXTENDS Grammar, FiniteSets, Json, TLCExt
 
 CONSTANTS TracePrefix, Groups
+\* Canaries, built from the specification alone (Grammar's constructors, Render, Strip) - nothing the parser under
+\* test produces enters them.  control-*: a written tree with its own rendering must get renders, grouped, pratt;
+\* canary-order-*: the operands of the top node swapped must fail renders; canary-grouping-*: the tree regrouped to
+\* the other side without parentheses must fail grouped (and pratt).
+CA == Ident("req.http.A")   CB == Ident("req.http.B")   CS == String("s")
+CanaryTrees == {Infix("&&", Infix("==", CA, CS), CB), Infix("~", CA, Infix("juxt", CS, CB)),
+                Infix("||", CA, Infix("&&", CB, Infix("!~", CA, Infix("+", CS, CB)))), Infix("<", Infix("+", CS, CA), CB)}
+Swap(t) == [t EXCEPT !.left = t.right, !.right = t.left]
+\* (l o1 r1) o r  ->  l o1 (r1 o r)   and   l o (l1 o1 r) -> (l o l1) o1 r : same tokens, the other grouping
+Regroup(t) == IF t.left.k = "infix" THEN Infix(t.left.op, t.left.left, Infix(t.op, t.left.right, t.right))
+              ELSE Infix(t.right.op, Infix(t.op, t.left, t.right.left), t.right.right)
+CanaryRec(kind, i, toksOf, tree) == [id |-> kind \o "-" \o ToString(i), toks |-> Render(toksOf), tree |-> Strip(tree)]
+CanarySeq == CHOOSE q \in [1..Cardinality(CanaryTrees) -> CanaryTrees] : \A i, j \in DOMAIN q : i # j => q[i] # q[j]
+CanaryRecs == {CanaryRec("control", i, CanarySeq[i], CanarySeq[i]) : i \in DOMAIN CanarySeq}
+              \cup {CanaryRec("canary-order", i, CanarySeq[i], Swap(CanarySeq[i])) : i \in DOMAIN CanarySeq}
+              \cup {CanaryRec("canary-grouping", i, CanarySeq[i], Regroup(CanarySeq[i])) : i \in DOMAIN CanarySeq}
+
 VARIABLES stage, grp, file, rec
 tvars == <<stage, grp, file, rec>>
 Init == stage = 0 /\ grp = 0 /\ file = <<>> /\ rec = <<>>
@@ -26,6 +43,7 @@ Next == \/ /\ stage = 0 /\ stage' = 1 /\ \E g \in 0..(Groups - 1) : grp' = g /\ 
            /\ UNCHANGED <<grp, rec>>
         \/ /\ stage = 2 /\ stage' = 3 /\ \E t \in 1..Len(file) : rec' = file[t]
            /\ file' = <<>> /\ UNCHANGED grp
+        \/ /\ stage = 0 /\ stage' = 3 /\ rec' \in CanaryRecs /\ UNCHANGED <<grp, file>>
 TraceSpec == Init /\ [][Next]_tvars
 
 RECURSIVE WellGrouped(_)
